@@ -206,7 +206,11 @@ def _prepend_package_lua(orig_ast, package_lua):
         escaped_pth = pth.replace(b'"', b'\\"')
         package_header.append(
             b'package._c["' + escaped_pth + b'"]=function()\n')
-        package_header.extend(ast.to_lines())
+        package_lines = list(ast.to_lines())
+        if package_lines and not package_lines[-1].endswith(b'\n'):
+            # (Don't join the package's last line with the "end".)
+            package_lines[-1] += b'\n'
+        package_header.extend(package_lines)
         package_header.append(b'end\n')
     package_header.extend(REQUIRE_LUA_PREAMBLE_REQUIRE)
     new_code = package_header + list(orig_ast.to_lines())
